@@ -1,6 +1,6 @@
 """Shared driver of the lock-step checks (C06-C10, C13): generate programs, run the real pipeline,
 run spec/Refine.tla on the printed assembly of each backend, classify the latched verdicts."""
-import json, os, random, sys, time, glob, collections
+import json, os, random, sys, time, glob, collections, shutil
 from common import *
 import gen_axcut, refine
 from tok_common import TokError
@@ -160,10 +160,14 @@ def coverage_of(results):
 
 def lockstep_check(pid, tier, backends, plan, maxsteps=6000, nblocks=96, timeout=1500, level="translation_validation",
                    assumptions=None, extra_rule="", directed=None, with_examples=True, post=None, extra_cov=None,
-                   extra=None, footprint_k=2):
+                   extra=None, footprint_k=2, extra_viols=None):
     t0 = time.time()
     build_harness()
-    work = fresh_dir(WORK, pid)
+    work = os.path.join(WORK, pid)
+    for d in glob.glob(os.path.join(work, "*")):
+        if os.path.basename(d) != "mc_heap":
+            shutil.rmtree(d, ignore_errors=True) if os.path.isdir(d) else os.remove(d)
+    os.makedirs(work, exist_ok=True)
     art, index, args = build_batch(work, plan, with_examples=with_examples, directed=directed, extra=extra)
     allv, allstats, states, trans, nprog, ncases = [], {}, 0, 0, 0, 0
     samples, cov = [], {}
@@ -187,6 +191,7 @@ def lockstep_check(pid, tier, backends, plan, maxsteps=6000, nblocks=96, timeout
         json.dump(r["results"], open(os.path.join(work, "results-%s.json" % be), "w"))
     if post:
         allv += post(art, index, args, work, allstats)
+    allv += list(extra_viols or [])
     new = triage(pid, allv)
     coverage = {"programs": nprog, "disagreements_checked": ncases, "samples": samples, "states": states,
                 "transitions": trans, "traces_validated_against_impl": ncases, "per_backend": allstats,
